@@ -148,3 +148,101 @@ Proof.
   assert (EF : 1000000000 * F = IZR N * 1000000000 + 1000000000 * fr) by (unfold fr; lra).
   rewrite EF. lra.
 Qed.
+
+(** the decoder IS [dec_tail] of its fractionalSeconds when the [subseconds >= 1e9] branch is not taken *)
+Definition dec_nowrapb (ipd k : Z) : bool := negb (f64_ge (dec_sub_of (dec_fs ipd k)) c_1e9).
+
+Lemma dec_is_tail ipd k : dec_nowrapb ipd k = true -> dec 0 ipd k = dec_tail (dec_fs ipd k).
+Proof.
+  unfold dec_nowrapb. intros H. apply negb_true_iff in H.
+  unfold dec, dec_tail, dec_sub_of, dec_fs in *. rewrite H. reflexivity.
+Qed.
+
+Lemma dec_fs_finite ipd k : (1 <= ipd <= 2 ^ 17)%Z -> (0 <= k < 2 ^ 32)%Z -> is_finite (dec_fs ipd k) = true.
+Proof.
+  intros Hi Hk. unfold dec_fs.
+  destruct (of_Z_spec ipd 17 ltac:(lia) ltac:(lia)) as [Ei Bi]. rewrite RN_IZR in Ei by lia.
+  destruct (of_Z_spec k 32 ltac:(lia) ltac:(lia)) as [Ek Bk].
+  assert (Bc : bnd 16 c_dec_tpi).
+  { unfold c_dec_tpi. change 16%Z with (53 + dec_tpi_e)%Z. apply cst_spec; unfold dec_tpi_m, dec_tpi_e; lia. }
+  destruct (mul_spec _ _ 17 16 ltac:(lia) ltac:(lia) ltac:(lia) Bi Bc) as [ED [FD _]]. rewrite Ei in ED.
+  pose proof c_dec_value as C. pose proof u_pos as U. pose proof tiny_small as [TS0 TS1].
+  assert (I1 : 1 <= IZR ipd) by (apply IZR_le; lia).
+  assert (D1 : 1 <= B2R (f64_mul (f64_of_Z ipd) c_dec_tpi)).
+  { rewrite ED. assert (1 <= IZR ipd * B2R c_dec_tpi) by nra.
+    pose proof (RN_rel (IZR ipd * B2R c_dec_tpi) ltac:(nra) ltac:(right; nra)). nra. }
+  destruct (div_spec _ _ 32 ltac:(lia) Bk FD D1) as [_ [F _]]. exact F.
+Qed.
+
+(** decoded offset against the exact position of the tick, P = k * interval / 2^32 nanoseconds *)
+Theorem dec_total ipd k : (1 <= ipd <= 2 ^ 17)%Z -> (0 <= k < 2 ^ 32)%Z -> dec_nowrapb ipd k = true ->
+  let P := 1000000000 * (IZR k / tps_exact ipd) in
+  P - 7 / 10 <= IZR (dec_offset ipd k) <= P + 7 / 10.
+Proof.
+  intros Hi Hk NW P.
+  pose proof (dec_fs_accuracy ipd k Hi Hk) as A. cbn zeta in A.
+  pose proof (dec_fs_finite ipd k Hi Hk) as Ff.
+  assert (I1 : 1 <= IZR ipd <= 131072) by (split; apply IZR_le; lia).
+  assert (K0 : 0 <= IZR k <= 4294967296) by (split; apply IZR_le; lia).
+  assert (Ht : 49710 <= tps_exact ipd) by (unfold tps_exact; lra).
+  set (p := IZR k / tps_exact ipd) in *.
+  assert (P0 : 0 <= p <= 86400).
+  { unfold p. split.
+    - apply Rmult_le_pos; [ lra | left; apply Rinv_0_lt_compat; lra ].
+    - apply Rmult_le_reg_r with (tps_exact ipd); [ lra | ]. unfold Rdiv. rewrite Rmult_assoc, Rinv_l by lra.
+      unfold tps_exact in *. nra. }
+  pose proof u_pos as U.
+  assert (Bf : bnd 17 (dec_fs ipd k)).
+  { split; [ exact Ff | ]. change (bpow radix2 17) with 131072. unfold u in *. nra. }
+  assert (SL : B2R (dec_sub_of (dec_fs ipd k)) < 1000000000).
+  { unfold dec_nowrapb in NW. apply negb_true_iff in NW. unfold f64_ge in NW.
+    destruct (frac_exact _ 17 ltac:(lia) Bf) as [Efr Ffr].
+    assert (Bfr : bnd 0 (f64_sub (dec_fs ipd k) (f64_floor (dec_fs ipd k)))).
+    { split; [ exact Ffr | ]. rewrite Efr. pose proof (Zfloor_lb (B2R (dec_fs ipd k))). pose proof (Zfloor_ub (B2R (dec_fs ipd k))).
+      simpl. lra. }
+    destruct c_1e9_value as [E9 B9].
+    destruct (mul_spec _ _ 30 0 ltac:(lia) ltac:(lia) ltac:(lia) B9 Bfr) as [_ [FS _]].
+    fold (dec_sub_of (dec_fs ipd k)) in FS.
+    rewrite (Bleb_correct 53 1024 _ _ (proj1 B9) FS) in NW. rewrite E9 in NW.
+    destruct (Rle_bool_spec 1000000000 (B2R (dec_sub_of (dec_fs ipd k)))); [ discriminate | assumption ]. }
+  pose proof (dec_tail_total _ Bf SL) as T. cbn zeta in T.
+  unfold dec_offset. rewrite (dec_is_tail ipd k NW).
+  destruct (dec_tail (dec_fs ipd k)) as [s n] eqn:ET. cbn [fst snd] in T.
+  unfold P. unfold u in *. nra.
+Qed.
+
+(** round trip, all timeframes, all offsets — under the side condition that the decoder's
+    [subseconds >= 1e9] branch is not taken for the produced tick (a boolean on (ipd, enc o)) *)
+Theorem roundtrip_nowrap ipd o : In ipd ipds -> (0 <= o < interval_ns ipd)%Z ->
+  dec_nowrapb ipd (enc ipd o) = true ->
+  let o' := dec_offset ipd (enc ipd o) in
+  (0 <= o' <= o)%Z
+  /\ IZR (o - o') < IZR (interval_ns ipd) / 4294967296 + 76 / 100
+  /\ (ipd = 86400%Z -> o' = o).
+Proof.
+  intros Hin Ho NW o'. destruct (ipds_range ipd Hin) as [Hi Hn].
+  destruct (enc_mono ipd o o Hin ltac:(lia) ltac:(lia)) as [[K0 _] K1].
+  pose proof (dec_total ipd (enc ipd o) ltac:(lia) ltac:(lia) NW) as D. cbn zeta in D. fold o' in D.
+  pose proof (enc_position ipd o Hin Ho) as E. cbn zeta in E.
+  pose proof (ipd_interval ipd Hin) as II.
+  assert (N0 : 0 < IZR (interval_ns ipd) <= 86400000000000).
+  { split; [ apply IZR_lt; lia | ]. assert (1 <= IZR ipd) by (apply IZR_le; lia). nra. }
+  assert (I0 : 0 < IZR ipd) by (apply IZR_lt; lia).
+  assert (EP : 1000000000 * (IZR (enc ipd o) / tps_exact ipd)
+               = IZR (enc ipd o) * IZR (interval_ns ipd) / 4294967296).
+  { unfold tps_exact. transitivity (IZR (enc ipd o) * (86400000000000 / IZR ipd) / 4294967296); [ field; lra | ].
+    rewrite <- II. field. lra. }
+  rewrite EP in D. set (pos := IZR (enc ipd o) * IZR (interval_ns ipd) / 4294967296) in *.
+  assert (O0 : 0 <= IZR o < 86400000000000).
+  { split; [ apply IZR_le; lia | ]. apply Rlt_le_trans with (IZR (interval_ns ipd)); [ apply IZR_lt; lia | lra ]. }
+  assert (U6 : 6 * u * IZR o <= 6 / 100) by (unfold u; nra).
+  assert (N1 : (0 <= o')%Z) by apply dec_offset_nonneg.
+  assert (LE : (o' <= o)%Z).
+  { apply Z.lt_succ_r. apply lt_IZR. rewrite succ_IZR. nra. }
+  assert (GAP : IZR (o - o') < IZR (interval_ns ipd) / 4294967296 + 76 / 100).
+  { rewrite minus_IZR. nra. }
+  split; [ lia | ]. split; [ exact GAP | ].
+  intros ->. assert (IN : IZR (interval_ns 86400) = 1000000000) by (vm_compute; reflexivity).
+  rewrite IN in GAP.
+  assert ((o - o' < 1)%Z) by (apply lt_IZR; lra). lia.
+Qed.
